@@ -402,6 +402,20 @@ def check_file(route, out, expect):
                 return 'get_trace and read_subplane disagree'
         else:
             got = r.read_volume()
+            # every access path of an accepted setting must be a slice of that volume (the layout-specialised loaders)
+            n0, n1, n2 = src.shape
+            for i in sorted({0, n0 - 1, n0 // 2}):
+                if not bits_equal(r.read_inline(i), got[i]):
+                    return f'read_inline({i}) is not the inline of read_volume()'
+            for x in sorted({0, n1 - 1, n1 // 2}):
+                if not bits_equal(r.read_crossline(x), got[:, x]):
+                    return f'read_crossline({x}) is not the crossline of read_volume()'
+            for z in sorted({0, n2 - 1, n2 // 2, min(n2 - 1, 5)}):
+                if not bits_equal(r.read_zslice(z), got[:, :, z]):
+                    return f'read_zslice({z}) is not the z-slice of read_volume()'
+            t = (n0 * n1) // 2
+            if not bits_equal(r.get_trace(t), got[t // n1, t % n1]):
+                return f'get_trace({t}) is not the trace of read_volume()'
     sl = tuple(slice(0, n) for n in src.shape)
     sv = s.volume()[sl]
     if got.shape != src.shape or not bits_equal(got, sv):
